@@ -54,14 +54,24 @@ class Gamma:
             kind = TOKEN_KINDS[(t - 1) % 7]
             while True:
                 if kind in ("tomo_id", "object_id", "class"):
-                    v = float(rng.randint(1, 40 * ntokens + 50)) if rng.random() < 0.88 else \
-                        float(rng.randint(2 ** 31, 8900000000))          # numbering values beyond the int32 range
+                    k = rng.random()
+                    if k < 0.06:
+                        v = 0.0                                           # an identifier may be 0 ...
+                    elif k < 0.12:
+                        v = float((ntokens + 6) // 7)                     # ... or equal the number of particles
+                    elif k < 0.24:
+                        v = float(100000 + (t - 1) // 7)                  # ... or large and consecutive
+                    elif k < 0.36:
+                        v = float(rng.randint(2 ** 31, 8900000000))       # ... or beyond the int32 range
+                    else:
+                        v = float(rng.randint(1, 40 * ntokens + 50))
                 elif kind == "score":
                     v = rng.choice([rng.uniform(-1, 1), rng.uniform(0, 1), rng.uniform(-500, 500), round(rng.uniform(0, 1), 3)])
                 else:
                     v = rng.choice([rng.uniform(-360, 360), rng.uniform(-180, 180), float(rng.randint(-360, 360)),
                                     round(rng.uniform(0, 180), 2)])
-                if v not in used and v != 0.0 and (abs(v) < 1e7 or v == int(v)) and not su.near_rounding_tie(v) \
+                isid = kind in ("tomo_id", "object_id", "class")
+                if v not in used and (v != 0.0 or isid) and (abs(v) < 1e7 or v == int(v)) and not su.near_rounding_tie(v) \
                         and round(v, 6) not in used:
                     break
             used.add(v)
@@ -637,6 +647,17 @@ def replay(ctx, case):
 # ---- seeded lists ----------------------------------------------------------------------------------
 def gen_list(rng, n, U, zero_shifts=None):
     sids = rng.sample(range(1, 20 * n + 50), n)
+    k = rng.random()
+    if k < 0.15:
+        sids = [100000 + i for i in range(n)]          # large consecutive numbers
+        if rng.random() < 0.5:
+            rng.shuffle(sids)
+    elif k < 0.3:
+        sids[rng.randrange(n)] = 0                     # the number 0 ...
+        if n not in sids:
+            sids[rng.randrange(n)] = n                 # ... and the number that equals the length of the list
+        if len(set(sids)) != n:
+            sids = list(range(n + 1))[:n] if n > 1 else [0]
     if rng.random() < 0.3:
         sids.sort()
     rows = []
@@ -747,7 +768,7 @@ def run(ctx):
             raise core.MachineryError("coverage hole: operations explored %s" % sorted(names))
         ctx.exhaustive["L1_small"] = True
         keyed = sorted(trs, key=lambda t: core.stable_hash([ctx.seed, t]))
-        chosen = keyed[:ctx.pick(900, 9000)]
+        chosen = keyed[:ctx.pick(750, 9000)]
         ctx.exhaustive["L2_transitions"] = len(chosen) == len(keyed)
         ctx.extra["transitions_emitted"] = len(trs)
         ctx.extra["transitions_replayed"] = len(chosen)
